@@ -60,6 +60,15 @@ impl Kind {
     }
 }
 
+/// Splits a refused-single-action class `rf.<cause>.<d|g>`.
+pub fn rf_parts(cls: &str) -> (&str, &str) {
+    let mut it = cls.split('.');
+    match (it.next(), it.next(), it.next()) {
+        (Some("rf"), Some(cause), Some(role)) => (cause, role),
+        _ => crate::fatal(&format!("unknown class {cls}")),
+    }
+}
+
 /// Signs with one key but names another: the resulting change commit has a signature that does
 /// not verify (`Entry::valid_signatures` is false).
 pub struct Forger {
@@ -196,6 +205,16 @@ pub struct Observed {
     pub tips: Vec<i64>,
     /// `serde_json` of the whole object.
     pub full: Value,
+    /// The evaluated object itself: presentations / the cleaned history are compared with the
+    /// object's own `PartialEq` as well.
+    pub obj: Obj,
+}
+
+/// An evaluated object of either type.
+#[derive(Clone, Debug, PartialEq)]
+pub enum Obj {
+    Issue(issue::Issue),
+    Patch(patch::Patch),
 }
 
 impl Observed {
@@ -207,7 +226,16 @@ impl Observed {
     pub fn lww(&self) -> i64 {
         self.title.strip_prefix('t').and_then(|s| s.parse().ok()).unwrap_or(-1)
     }
-    /// Applied changes in application order (timeline without the root).
+    /// The label writer: k for the label set {"l<k>"}, 0 for no labels, -1 otherwise.
+    pub fn labels_lww(&self) -> i64 {
+        match self.labels.as_slice() {
+            [] => 0,
+            [l] => l.strip_prefix('l').and_then(|s| s.parse().ok()).unwrap_or(-1),
+            _ => -1,
+        }
+    }
+    /// Timeline entries in order, without the root (issue: the thread timeline; patch: the
+    /// patch timeline, one entry per applied operation).
     pub fn log(&self) -> Vec<i64> {
         let mut out: Vec<i64> = Vec::new();
         for t in self.timeline.iter().skip(1) {
@@ -283,9 +311,16 @@ impl World {
     /// * `guest`       [comment "c<k>"]                           stranger  -- log entry only
     /// * `needs`       [comment "c<k>" replying to change tgt]    delegate  -- valid iff tgt's comment exists
     /// * `badSig`      like `ok`, forged signature
-    /// * `rejectFirst` single refused action (variants by k)
+    /// * `label`       [label "l<k>"]                             delegate  -- sets the labels, no thread entry
+    /// * `rf.<cause>.<d|g>` a single refused action by the delegate (d) or the stranger (g):
+    ///                 redactMissing / editMissing (non-empty body) / reactMissing / replyMissing: the
+    ///                 target comment id is absent; badTitle: line break in the title; label: by the
+    ///                 stranger. For patches the same on the root revision's discussion; where the
+    ///                 patch code *ignores* the action instead of refusing it, the nearest refused
+    ///                 one is used (missing revision), and `rf.badTitle.d` does not exist
+    ///                 ([`World::supports`]).
     /// * `rejectLater` [comment, title, label, refused action]    (variants by k: missing comment,
-    ///                 bad title, reply to a missing comment; k even and issue: stranger labelling)
+    ///                 bad title, reply to / edit of / reaction to a missing comment; stranger labelling)
     ///
     /// Returns (actions, author) where author is 0 = delegate, 1 = stranger, 2 = forged delegate.
     pub fn actions(&self, cls: &str, k: usize, tgt: Option<Oid>) -> (Vec<Vec<u8>>, u8) {
@@ -293,6 +328,7 @@ impl World {
         // An id that is never a comment/revision: the identity commit.
         let missing = self.identity;
         let label = |s: String| Label::from_str(&s).expect("label");
+        let reaction = radicle::cob::Reaction::new('\u{1F44D}').expect("reaction");
         match self.kind {
             Kind::Issue => {
                 use issue::Action as A;
@@ -305,18 +341,29 @@ impl World {
                     "guest" => (enc(vec![comment(root)]), 1),
                     "needs" => (enc(vec![comment(tgt.expect("needs target"))]), 0),
                     "badSig" => (enc(vec![comment(root), title]), 2),
-                    "rejectFirst" => match k % 3 {
-                        0 => (enc(vec![A::CommentRedact { id: missing }]), 0),
-                        1 => (enc(vec![A::Edit { title: format!("t{k}\nx") }]), 0),
-                        _ => (enc(vec![lab]), 1),
-                    },
-                    "rejectLater" => match k % 4 {
+                    "label" => (enc(vec![lab]), 0),
+                    "rejectLater" => match k % 6 {
                         0 => (enc(vec![comment(root), lab]), 1),
                         1 => (enc(vec![comment(root), title, lab, A::CommentRedact { id: missing }]), 0),
                         2 => (enc(vec![comment(root), title, lab, A::Edit { title: "bad\ntitle".into() }]), 0),
-                        _ => (enc(vec![title, lab, comment(missing)]), 0),
+                        3 => (enc(vec![title, lab, comment(missing)]), 0),
+                        4 => (enc(vec![title, lab, A::CommentEdit { id: missing, body: format!("e{k}"), embeds: vec![] }]), 0),
+                        _ => (enc(vec![title, lab, A::CommentReact { id: missing, reaction, active: true }]), 0),
                     },
-                    _ => crate::fatal(&format!("unknown class {cls}")),
+                    _ => {
+                        let (cause, role) = rf_parts(cls);
+                        let author = if role == "d" { 0 } else { 1 };
+                        let a = match cause {
+                            "redactMissing" => A::CommentRedact { id: missing },
+                            "editMissing" => A::CommentEdit { id: missing, body: format!("e{k}"), embeds: vec![] },
+                            "reactMissing" => A::CommentReact { id: missing, reaction, active: true },
+                            "replyMissing" => comment(missing),
+                            "badTitle" => A::Edit { title: format!("t{k}\nx") },
+                            "label" if role == "g" => lab,
+                            _ => crate::fatal(&format!("unknown class {cls}")),
+                        };
+                        (enc(vec![a]), author)
+                    }
                 }
             }
             Kind::Patch => {
@@ -337,21 +384,43 @@ impl World {
                     "guest" => (enc(vec![comment(None)]), 1),
                     "needs" => (enc(vec![comment(Some(tgt.expect("needs target")))]), 0),
                     "badSig" => (enc(vec![comment(None), title]), 2),
-                    "rejectFirst" => match k % 3 {
-                        0 => (enc(vec![A::RevisionRedact { revision: patch::RevisionId::from(missing) }]), 0),
-                        1 => (enc(vec![A::RevisionRedact { revision: rev }]), 0),
-                        _ => (enc(vec![lab]), 1),
-                    },
-                    "rejectLater" => match k % 4 {
+                    "label" => (enc(vec![lab]), 0),
+                    "rejectLater" => match k % 6 {
                         0 => (enc(vec![comment(None), lab]), 1),
                         1 => (enc(vec![comment(None), title, lab, A::RevisionRedact { revision: patch::RevisionId::from(missing) }]), 0),
                         2 => (enc(vec![comment(None), title, lab, A::RevisionRedact { revision: rev }]), 0),
-                        _ => (enc(vec![title, lab, comment(Some(missing))]), 0),
+                        3 => (enc(vec![title, lab, comment(Some(missing))]), 0),
+                        4 => (enc(vec![title, lab, A::RevisionCommentEdit { revision: rev, comment: missing, body: format!("e{k}"), embeds: vec![] }]), 0),
+                        _ => (enc(vec![title, lab, A::RevisionCommentReact { revision: rev, comment: missing, reaction, active: true }]), 0),
                     },
-                    _ => crate::fatal(&format!("unknown class {cls}")),
+                    _ => {
+                        let (cause, role) = rf_parts(cls);
+                        let author = if role == "d" { 0 } else { 1 };
+                        let missing_rev = patch::RevisionId::from(missing);
+                        let a = match (cause, role) {
+                            // a non-delegate's redaction/edit of a missing *comment* is ignored by
+                            // Patch::authorization (`Unknown`), not refused: use a missing revision
+                            ("redactMissing", "d") => A::RevisionCommentRedact { revision: rev, comment: missing },
+                            ("redactMissing", _) => A::RevisionRedact { revision: missing_rev },
+                            ("editMissing", "d") => A::RevisionCommentEdit { revision: rev, comment: missing, body: format!("e{k}"), embeds: vec![] },
+                            ("editMissing", _) => A::RevisionEdit { revision: missing_rev, description: format!("e{k}"), embeds: vec![] },
+                            ("reactMissing", _) => A::RevisionCommentReact { revision: rev, comment: missing, reaction, active: true },
+                            ("replyMissing", _) => comment(Some(missing)),
+                            ("badTitle", "g") => A::Edit { title: format!("t{k}\nx"), target: patch::MergeTarget::Delegates },
+                            ("label", "g") => lab,
+                            _ => crate::fatal(&format!("class {cls} has no patch realisation")),
+                        };
+                        (enc(vec![a]), author)
+                    }
                 }
             }
         }
+    }
+
+    /// Whether class `cls` can be realised for this object type (patches do not validate titles:
+    /// a delegate's title with a line break is not refused).
+    pub fn supports(kind: Kind, cls: &str) -> bool {
+        !(kind == Kind::Patch && cls == "rf.badTitle.d")
     }
 
     /// Write one raw change commit (no evaluation, no reference).
@@ -526,6 +595,7 @@ impl World {
                         hist: hist_of(obj.history(), &lab),
                         tips: sorted(obj.history().tips().iter().map(|o| lab(o)).collect()),
                         full: serde_json::to_value(i).map_err(|e| e.to_string())?,
+                        obj: Obj::Issue(i.clone()),
                     }))
                 }
                 Kind::Patch => {
@@ -554,6 +624,7 @@ impl World {
                         hist: hist_of(obj.history(), &lab),
                         tips: sorted(obj.history().tips().iter().map(|o| lab(o)).collect()),
                         full,
+                        obj: Obj::Patch(p.clone()),
                     }))
                 }
             }
@@ -629,7 +700,7 @@ impl GraphSpec {
     /// Invalid whatever the state: forged signature, refused action, or "detached" -- a change
     /// without dependencies that is not the root (nothing ties it to the object).
     pub fn always_invalid(&self, k: usize) -> bool {
-        matches!(self.cls(k), "badSig" | "rejectFirst" | "rejectLater") || self.changes[k - 1].deps.is_empty()
+        matches!(self.cls(k), "badSig" | "rejectLater") || self.cls(k).starts_with("rf.") || self.changes[k - 1].deps.is_empty()
     }
     /// All sets of changes containing the root and closed under dependencies.
     pub fn down_sets(&self) -> Vec<BTreeSet<usize>> {
@@ -689,21 +760,24 @@ pub fn statement_check(kind: Kind, g: &GraphSpec, closure: &BTreeSet<usize>, o: 
     if tips != otips {
         return Some(format!("history tips {:?} are not the tips {:?} of the history", otips, tips));
     }
-    // the log: the surviving changes, once each, dependencies first
+    // the timeline: the surviving changes that have an entry, once each, dependencies first.
+    // Issue: the thread timeline (changes that touched the thread); patch: one entry per operation.
     let log = o.log();
     if o.timeline.first() != Some(&0) {
         return Some(format!("timeline {:?} does not start with the root", o.timeline));
     }
+    let thread_cls = |k: usize| matches!(g.cls(k), "ok" | "guest" | "needs" | "soft");
+    let mut survivors = hist.clone();
+    survivors.remove(&0);
+    let want: BTreeSet<usize> = survivors.iter().copied().filter(|k| kind == Kind::Patch || thread_cls(*k)).collect();
     let logset: BTreeSet<usize> = log.iter().filter(|x| **x >= 0).map(|x| *x as usize).collect();
-    let mut want = hist.clone();
-    want.remove(&0);
     if logset != want || log.len() != want.len() {
-        return Some(format!("object shows effects of changes {:?} but the history has {:?}", log, want));
+        return Some(format!("timeline shows entries of changes {:?} but the surviving changes with an entry are {:?}", log, want));
     }
     let pos = |k: usize| log.iter().position(|x| *x == k as i64);
     for k in &want {
-        for d in &g.changes[*k - 1].deps {
-            if *d != 0 && pos(*d) > pos(*k) {
+        for d in g.closure(&[*k]) {
+            if d != 0 && d != *k && want.contains(&d) && pos(d) > pos(*k) {
                 return Some(format!("change {k} applied before its dependency {d}: {:?}", log));
             }
         }
@@ -714,30 +788,43 @@ pub fn statement_check(kind: Kind, g: &GraphSpec, closure: &BTreeSet<usize>, o: 
             }
         }
     }
-    let lww = log.iter().rev().find(|k| g.cls(**k as usize) == "ok").copied().unwrap_or(0);
-    if o.lww() != lww {
-        return Some(format!("title is {:?}, expected the one set by change {lww} (log {:?})", o.title, log));
-    }
+    // comments: those of the surviving thread changes, in timeline order
+    let thread_log: Vec<i64> = log.iter().copied().filter(|k| thread_cls(*k as usize)).collect();
     let mut comments: Vec<(i64, String)> = if kind == Kind::Issue { vec![(0, "c0".to_string())] } else { vec![] };
-    comments.extend(log.iter().map(|k| (*k, format!("c{k}"))));
+    comments.extend(thread_log.iter().map(|k| (*k, format!("c{k}"))));
     if o.comments != comments {
         return Some(format!("comments are {:?}, expected {:?}", o.comments, comments));
     }
-    if !o.labels.is_empty() {
-        return Some(format!("labels {:?} were only ever set by refused changes", o.labels));
+    let lww = thread_log.iter().rev().find(|k| g.cls(**k as usize) == "ok").copied().unwrap_or(0);
+    if o.lww() != lww {
+        return Some(format!("title is {:?}, expected the one set by change {lww} (timeline {:?})", o.title, log));
+    }
+    // labels: those of a surviving `label` change that no other surviving `label` change depends on
+    let labellers: BTreeSet<usize> = survivors.iter().copied().filter(|k| g.cls(*k) == "label").collect();
+    let last: BTreeSet<i64> = if labellers.is_empty() {
+        BTreeSet::from([0])
+    } else {
+        labellers.iter().filter(|k| g.descendants(**k).is_disjoint(&labellers)).map(|k| *k as i64).collect()
+    };
+    if !last.contains(&o.labels_lww()) {
+        return Some(format!("labels are {:?}, expected those of one of the changes {:?}", o.labels, last));
     }
     None
 }
 
-/// Exact comparison with the model's prediction (`log`, `lww`, `hist`, `tips` of a TLC case).
-pub fn model_diff(case: &Value, o: &Observed) -> Option<String> {
+/// Exact comparison with the model's prediction (a TLC case): timeline (`log` for an issue, `applied`
+/// for a patch), comments, title, labels, history and tips.
+pub fn model_diff(kind: Kind, case: &Value, o: &Observed) -> Option<String> {
     let ints = |v: &Value| -> Vec<i64> { v.as_array().map(|a| a.iter().map(|x| x.as_i64().unwrap()).collect()).unwrap_or_default() };
-    let (log, hist, tips) = (ints(&case["log"]), ints(&case["hist"]), ints(&case["tips"]));
+    let timeline = ints(if kind == Kind::Issue { &case["log"] } else { &case["applied"] });
+    let (comments, hist, tips) = (ints(&case["comments"]), ints(&case["hist"]), ints(&case["tips"]));
     let lww = case["lww"].as_i64().unwrap_or(-1);
-    if o.log() != log || o.lww() != lww || o.hist != hist || o.tips != tips {
+    let labels = case["labels"].as_i64().unwrap_or(-1);
+    let ocomments: Vec<i64> = o.comments.iter().map(|c| c.0).filter(|k| *k != 0).collect();
+    if o.log() != timeline || ocomments != comments || o.lww() != lww || o.labels_lww() != labels || o.hist != hist || o.tips != tips {
         Some(format!(
-            "model: log={:?} lww={} hist={:?} tips={:?}; implementation: log={:?} lww={} hist={:?} tips={:?}",
-            log, lww, hist, tips, o.log(), o.lww(), o.hist, o.tips
+            "model: timeline={:?} comments={:?} lww={} labels={} hist={:?} tips={:?}; implementation: timeline={:?} comments={:?} lww={} labels={} hist={:?} tips={:?}",
+            timeline, comments, lww, labels, hist, tips, o.log(), ocomments, o.lww(), o.labels_lww(), o.hist, o.tips
         ))
     } else {
         None
@@ -896,6 +983,15 @@ pub fn random_graph(rng: &mut Rng, m: usize, classes: &[(&str, usize)], detached
         }
     }
     g
+}
+
+/// The observable view of an issue as a trace record for spec/TraceCob.tla. Payload strings carry
+/// the creation-time labels: title and labels are mapped back through `rank` (identity for
+/// ground graphs: pass `&[]`).
+pub fn view_json(o: &Observed, rank: &[usize]) -> Value {
+    let map = |k: i64| if k > 0 && (k as usize) < rank.len() { rank[k as usize] as i64 } else { k };
+    let comments: Vec<i64> = o.comments.iter().map(|c| c.0).filter(|k| *k != 0).collect();
+    json!({"log": o.log(), "comments": comments, "lww": map(o.lww()), "labels": map(o.labels_lww()), "hist": o.hist, "tips": o.tips})
 }
 
 /// Relabel a graph by `rank` (rank[k] = new label of change k).
